@@ -108,6 +108,7 @@ package props
 //@   assigns nothing
 //
 //@ func props.IntProps["**"](env, kwargs, args) res
+//@   uses     ipow_zero, ipow_succ
 //@   requires argsOK(args)
 //@   let a := traceInt(args[0])
 //@   let b := traceInt(args[1])
